@@ -3,6 +3,8 @@ CONSTANTS
   Owners = {"k1", "k2", "k3"}
   Addrs = {1, 2}
   Unspec = 0
+  Cap = 0
+  BookkeepFirst = FALSE
   Bits = {"b0", "b1"}
   MaxHist = 6
   GenBms = {{}, {"b0"}, {"b1"}, {"b0", "b1"}}
